@@ -14,7 +14,7 @@ pub fn spec() -> PropSpec {
     PropSpec {
         id: "C10",
         level: "model_checking",
-        rule: "hole-program exploration through the real exec loop over {Push c (-1..3), Dup, Pop, Add, Eq, Alloc, Store, Load(parent), JumpIf, PanicIf, Halt, Repeat, RepeatEnd, RepeatCounter, Compute, ComputeEnd} from parent states {empty, small stack+memory, open repeat loop, full stack}, compared with the sequential-loop reference; directed cases (breadth 1000/5000, children allocating 10 vs 11 words, nested compute, children ending at different positions / by Halt / by end of program); then, for every completed program that forks >= 2 children, all completion orders of the children (mode A) and preemption-bounded op-granular interleavings (mode B, shuttle runtime + own DFS scheduler) must give the sequential observation. states = distinct completed programs x configurations, transitions = reference steps + schedules executed. non-trivial = the reference executed >= 2 ops; distinct by bytecode+configuration",
+        rule: "hole-program exploration through the real exec loop over {Push c (-1..3), Dup, Pop, Add, Eq, Alloc, Store, Load(parent), JumpIf, PanicIf, Halt, Repeat, RepeatEnd, RepeatCounter, Compute, ComputeEnd} from parent states {empty, small stack+memory, open repeat loop, two open loops (inner on its last round), full stack}, compared with the sequential-loop reference; directed cases (breadth 1000/5000, children allocating 10 vs 11 words, nested compute, children ending at different positions / by Halt / by end of program); then, for every completed program that forks >= 2 children, all completion orders of the children (mode A) and preemption-bounded op-granular interleavings (mode B, shuttle runtime + own DFS scheduler) must give the sequential observation. states = distinct completed programs x configurations, transitions = reference steps + schedules executed. non-trivial = the reference executed >= 2 ops; distinct by bytecode+configuration",
         assumptions: &[
             "the position reached by a child is its final pc; the parent resumes at max(own pc, children)",
             "a ComputeEnd met by a non-child VM is unspecified (masked); runs in which every child ends at or before the Compute are masked",
@@ -22,8 +22,8 @@ pub fn spec() -> PropSpec {
         ],
         run,
         replay,
-        describe_wal: None,
-        run_wal: None,
+        describe_wal: Some(progx::wal_describe),
+        run_wal: Some(progx::wal_run),
         both_profiles: false,
         workers: 0,
     }
@@ -61,6 +61,20 @@ pub fn parent_states() -> Vec<(String, RVm)> {
         (
             "open-loop".into(),
             RVm { pc: 0, stack: vec![3], memory: vec![], parent_memory: None, repeat: vec![RSlot { counter: 1, up: Some(3), ret: 0, degenerate: false }] },
+        ),
+        (
+            "two-open-loops".into(),
+            RVm {
+                pc: 0,
+                stack: vec![2],
+                memory: vec![],
+                parent_memory: None,
+                repeat: vec![
+                    RSlot { counter: 1, up: Some(3), ret: 0, degenerate: false },
+                    // inner loop on its last round: the next RepeatEnd pops it
+                    RSlot { counter: 1, up: Some(2), ret: 0, degenerate: false },
+                ],
+            },
         ),
         ("full-stack".into(), RVm { pc: 0, stack: full, memory: vec![9], parent_memory: None, repeat: vec![] }),
     ]
@@ -198,7 +212,7 @@ fn run(cfg: &RunCfg, rep: &mut Report) {
     let alpha = alphabet();
     let len = cfg.tier.pick(5, 6);
     let limit = cfg.tier.pick(40, 64);
-    rep.bound_completed = format!("program length <= {len}, {} symbols, 4 parent states, gas limit {limit}; schedules: all completion orders for breadth <= 3 (deviation bound {} beyond), preemption bound {}", alpha.len(), cfg.tier.pick(2, 4), cfg.tier.pick(1, 2));
+    rep.bound_completed = format!("program length <= {len}, {} symbols, 5 parent states, gas limit {limit}; schedules: all completion orders for breadth <= 3 (deviation bound {} beyond), preemption bound {}", alpha.len(), cfg.tier.pick(2, 4), cfg.tier.pick(1, 2));
     for (label, init) in parent_states() {
         let env = ProgEnv::basic(Cost::Const(1), limit);
         let px = Px { prop: "C10", alphabet: &alpha, len, init: &init, env: &env, label: format!("{label}/len{len}"), mask_stray_compute_end: true };
